@@ -262,11 +262,11 @@ Qed.
    caller's buffer is returned unchanged *)
 Theorem ip4_append_st_too_big p b proto :
   fst (ip4_append_st p b proto) = ip4_append p b proto /\
-  ((cap p - len p < length b)%nat <-> ip4_append_st p b proto = (Err EPayloadTooBig, arr p)) /\
+  ((cap p < 20 + length b)%nat <-> ip4_append_st p b proto = (Err EPayloadTooBig, arr p)) /\
   (fst (ip4_append_st p b proto) = Err EPayloadTooBig -> snd (ip4_append_st p b proto) = arr p).
 Proof.
   unfold ip4_append_st.
-  destruct (Nat.ltb_spec (cap p - len p) (length b)) as [H|H]; cbn [fst snd].
+  destruct (Nat.ltb_spec (cap p) (20 + length b)) as [H|H]; cbn [fst snd].
   - split. { symmetry. apply ip4_append_too_big. exact H. } split; [tauto|reflexivity].
   - split; [reflexivity|]. split.
     + split; [lia|]. intros E. injection E as E1 _. apply ip4_append_too_big in E1. lia.
@@ -275,11 +275,11 @@ Qed.
 
 Theorem udp_append_st_too_big p b :
   fst (udp_append_st p b) = udp_append p b /\
-  ((cap p - len p < length b)%nat <-> udp_append_st p b = (Err EPayloadTooBig, arr p)) /\
+  ((cap p < 8 + length b)%nat <-> udp_append_st p b = (Err EPayloadTooBig, arr p)) /\
   (fst (udp_append_st p b) = Err EPayloadTooBig -> snd (udp_append_st p b) = arr p).
 Proof.
   unfold udp_append_st.
-  destruct (Nat.ltb_spec (cap p - len p) (length b)) as [H|H]; cbn [fst snd].
+  destruct (Nat.ltb_spec (cap p) (8 + length b)) as [H|H]; cbn [fst snd].
   - split. { symmetry. apply udp_append_too_big. exact H. } split; [tauto|reflexivity].
   - split; [reflexivity|]. split.
     + split; [lia|]. intros E. injection E as E1 _. apply udp_append_too_big in E1. lia.
@@ -289,12 +289,12 @@ Qed.
 (* IPv6: a nil payload is rejected too (b == nil || ...) *)
 Theorem ip6_append_st_too_big p b isnil nh :
   fst (ip6_append_st p b isnil nh) = ip6_append p b isnil nh /\
-  ((isnil = true \/ (cap p - len p < length b)%nat) <-> ip6_append_st p b isnil nh = (Err EPayloadTooBig, arr p)) /\
+  ((isnil = true \/ (cap p < 40 + length b)%nat) <-> ip6_append_st p b isnil nh = (Err EPayloadTooBig, arr p)) /\
   (fst (ip6_append_st p b isnil nh) = Err EPayloadTooBig -> snd (ip6_append_st p b isnil nh) = arr p).
 Proof.
   unfold ip6_append_st. destruct isnil; cbn [orb fst snd].
   - split; [reflexivity|]. split; [tauto|reflexivity].
-  - destruct (Nat.ltb_spec (cap p - len p) (length b)) as [H|H]; cbn [fst snd].
+  - destruct (Nat.ltb_spec (cap p) (40 + length b)) as [H|H]; cbn [fst snd].
     + split. { symmetry. apply ip6_append_too_big. exact H. } split; [tauto|reflexivity].
     + split; [reflexivity|]. split.
       * split; [intros [E|E]; [discriminate|lia]|]. intros E. injection E as E1 _. apply ip6_append_too_big in E1. lia.
